@@ -1234,9 +1234,14 @@ fn random_frame(w: &World, rng: &mut Rng, k: u64, chal: Option<u32>) -> String {
             if let (Some(l), true) = (w.bait.as_ref(), rng.chance(2, 3)) {
                 let a = l.local_addr().map(|a| a.to_string()).unwrap_or("127.0.0.1:1".into()).replace(':', "~");
                 // a peer the node does not know (connect), itself (skip), the asking peer (skip)
-                match rng.below(3) {
+                match rng.below(5) {
                     0 => format!("nodesessions:far@h^{a}"),
                     1 => format!("nodesessions:{}^{a};far2@h^{a}", w.name),
+                    // peers the node may already be connected to (by NAME): only the unknown one is dialled
+                    2 => format!("nodesessions:evil@h^{a};zed@h^{a}"),
+                    // … or by CONNECTION STRING (the adversary's sessions announce `pc` / `pc2`), and the
+                    // node's own connection string under a foreign name
+                    3 => format!("nodesessions:alias@h^pc;alias2@h^pc2;far3@h^{a};me2@h^{}", w.this_conn.clone().unwrap_or_default().replace(':', "~")),
                     _ => "nodesessions:-".to_string(),
                 }
             } else {
@@ -1496,7 +1501,12 @@ async fn relay_case(log: &mut Log, st: &mut Stats, rng: &mut Rng, case_no: u64) 
             } else {
                 op_send(&mut w, log, st, 1, &format!("schal:{n1}:pc2:{}", rng.below(100_000))).await;
             }
-            op_relay(&mut w, log, st, 0, 1, "sack").await;
+            if variant == 3 && rng.chance(1, 2) {
+                // control: echo the node's own ChallengeReply digest back on the same session
+                op_relay(&mut w, log, st, 0, 0, "sack").await;
+            } else {
+                op_relay(&mut w, log, st, 0, 1, "sack").await;
+            }
             if rng.chance(1, 2) {
                 // a third outbound session of the node authenticates the second one the same way
                 op_open(&mut w, log, st, 2, false, ext).await;
